@@ -350,8 +350,8 @@ func buildModel(c Config) model {
 				if !ok {
 					dec = enc
 				}
-				// MUST only when the option is itself a clean absolute path
-				m.Locs = addLoc(m.Locs, loc{"page", norm(dec), cb == norm(cb)})
+				// MUST only when the option is itself a clean absolute path without escapes, query or fragment
+				m.Locs = addLoc(m.Locs, loc{"page", norm(dec), cb == norm(cb) && !strings.ContainsAny(cb, "%?#")})
 				if dec != cb {
 					m.Locs = addLoc(m.Locs, loc{"page", norm(cb), false})
 				}
